@@ -60,7 +60,12 @@ def scenarios(d):
         f = {"name": "f%d" % i, "kind": "int" if sg else "bit", "w": w, "signed": sg, "rand": i < 2 or d.chance(85)}
         f["init"] = gen.rand_in_type(d, f)
         fs.append(f)
-    g = gen.G(d, fs, {}, mul_max_w=4)
+    enums = {}
+    if d.chance(45):
+        # a random enum field that the statements below usually do not mention (drawn outside every rand set)
+        enums = {"E1": {"int": True, "members": [["A", 0], ["B", 1], ["C", 5], ["D", 9]]}}
+        fs.append({"name": "e0", "kind": "enum", "w": 32, "signed": True, "rand": True, "enum": "E1", "dom": [0, 1, 5, 9], "init": 0})
+    g = gen.G(d, [f for f in fs if f["kind"] != "enum" or d.chance(30)], enums, mul_max_w=4)
     stmts = []
     for _ in range(d.randint(1, 3)):
         stmts.append(g.field_stmt(1))
@@ -107,7 +112,7 @@ def scenarios(d):
             ops.append(["reseed", d.randint(0, 2), d.seed()])
         else:
             ops.append(["unsat", d.randint(0, 2)])
-    return {"prog": {"enums": {}, "classes": [cls]}, "state": d.choice(["explicit", "explicit", "global"]), "seed": d.seed(),
+    return {"prog": {"enums": enums, "classes": [cls]}, "state": d.choice(["explicit", "explicit", "global"]), "seed": d.seed(),
             "gseed": d.seed(), "ops": ops,
             # the documented two-argument form RandState.mkFromSeed(seed, "string") in half of the scenarios
             "strval": d.choice([None, None, "abc", "inst.path[3]", ""])}
@@ -201,6 +206,8 @@ def snap_cases(d):
             ops.append(["rand", d.randint(0, 1)])
         elif r < 45:
             ops.append(["fail", d.randint(0, 1)])       # a call that raises SolveFailure (contradictory inline constraint)
+        elif r < 52:
+            ops.append(["gnoise", d.seed()])            # unrelated use of Python's global random module
         elif r < 60:
             ops.append(["snap", d.randint(0, 1)])
         elif r < 80:
@@ -213,9 +220,16 @@ def snap_cases(d):
 
 
 SNAP_SRC = '''
+class E1(enum.IntEnum):
+    A = 0
+    B = 1
+    C = 5
+    D = 9
+
 @vsc.randobj
 class T(object):
     def __init__(self):
+        self.e = vsc.rand_enum_t(E1)
         self.a = vsc.rand_bit_t(8)
         self.b = vsc.rand_bit_t(8)
         self.c = vsc.rand_bit_t(4)
@@ -242,7 +256,7 @@ def run_snap(case):
     info = {"restores_after_draws": 0}
 
     def vals(o):
-        return (int(o.a), int(o.b), int(o.c), tuple(int(x) for x in o.l))
+        return (int(o.a), int(o.b), int(o.c), tuple(int(x) for x in o.l), int(o.e))
 
     def txt(extra):
         return SNAP_SRC + "# seed %d\n# ops: %s\n# %s" % (case["seed"], cjson(case["ops"]), extra)
@@ -261,6 +275,11 @@ def run_snap(case):
         return False
     for step, op in enumerate(case["ops"]):
         k = op[0]
+        if k == "gnoise":
+            import random as _random
+            _random.seed(op[1])
+            _random.random()
+            continue
         if k == "fail":
             o = objs[op[1]]
             if not failing_call(o):
